@@ -9,6 +9,7 @@ package main
 
 import (
 	"fmt"
+	"strconv"
 	"strings"
 	"testing"
 
@@ -148,8 +149,20 @@ func TestC01(t *testing.T) {
 				}
 			}
 			sib.Msg.Body = append([]byte("second request\x00\r\n"), sib.Msg.Body...)
+			zeros := ""
+			if cl := sib.Msg.CLOverride; cl != "" {
+				// the declared length is re-computed for the sibling's own body
+				zeros = cl[:len(cl)-len(strings.TrimLeft(cl, "0"))]
+				if strings.TrimLeft(cl, "0") == "" {
+					zeros = cl[:len(cl)-1]
+				}
+				sib.Msg.CLOverride = ""
+			}
 			if !(sib.Ingress.TCP && len(sib.Msg.Bytes()) > 63000) {
 				fitUDP(sib.Msg, 63000)
+			}
+			if zeros != "" {
+				sib.Msg.CLOverride = zeros + strconv.Itoa(len(sib.Msg.Body))
 			}
 			sib.Wire = jsonBytes(sib.Msg.Bytes())
 			V.Journal(t.Name()+"/requests", map[string]any{"first": rc, "second_same_via_stack": sib})
